@@ -38,8 +38,12 @@ func streamAead(c *ctx) {
 		}
 		var ct []byte
 		var eerr error
+		iv0, pt0, aad0 := append([]byte{}, iv...), append([]byte{}, pt...), append([]byte{}, aad...)
 		p, pm := catch(func() { ct, eerr = e.Encrypt(iv, pt, aad) })
 		line := fmt.Sprintf("aead|alg=%d|pt=%d|aad=%d|seeds=%d,%d", alg, pl, al, s1, s2)
+		if !bytes.Equal(iv, iv0) || !bytes.Equal(pt, pt0) || !bytes.Equal(aad, aad0) {
+			c.fail(failure{Op: "aead", What: "Encrypt changed the caller's nonce, plaintext or additional data", Input: line, Observed: "changed", Expected: "inputs untouched", Case: line})
+		}
 		if p {
 			c.fail(failure{Op: "aead", What: "Encrypt panics", Input: line, Observed: "panic: " + pm, Expected: "ciphertext or error", Case: line, Theorem: "C12_ccm_limit"})
 			return
@@ -56,10 +60,31 @@ func streamAead(c *ctx) {
 		if len(ct) != pl+tagOf[alg] {
 			c.fail(failure{Op: "aead", What: "ciphertext length is not plaintext length plus tag length", Input: line, Observed: fmt.Sprint(len(ct)), Expected: fmt.Sprint(pl + tagOf[alg]), Case: line, Theorem: "C12_ccm_len"})
 		}
+		ct0 := append([]byte{}, ct...)
 		back, derr := e.Decrypt(iv, ct, aad)
 		if derr != nil || !bytes.Equal(back, pt) {
 			c.fail(failure{Op: "aead", What: "decrypting the ciphertext does not return the plaintext", Input: line, Observed: fmt.Sprint(derr), Expected: "plaintext", Case: line, Theorem: "C12_open_seal"})
 		}
+		// decryption is a function of its arguments: the ciphertext (and nonce, additional data) handed in are left
+		// as they were, so the same call made again gives the same answer
+		again := func(when string) {
+			if !bytes.Equal(ct, ct0) || !bytes.Equal(iv, iv0) || !bytes.Equal(aad, aad0) {
+				c.fail(failure{Op: "aead", What: "Decrypt changed the caller's ciphertext, nonce or additional data (" + when + ")", Input: line + fmt.Sprintf("|key=%x|nonce=%x|ciphertext=%x", k, iv0, ct0), Observed: hx(ct), Expected: hx(ct0), Case: line, Theorem: "C12_open_seal"})
+				copy(ct, ct0)
+			}
+			b2, e2 := e.Decrypt(iv, ct, aad)
+			c.eval()
+			if e2 != nil || !bytes.Equal(b2, pt0) {
+				c.fail(failure{Op: "aead", What: "a second decryption of the same ciphertext (" + when + ") does not return the plaintext", Input: line + fmt.Sprintf("|key=%x|nonce=%x|ciphertext=%x", k, iv0, ct0), Observed: fmt.Sprintf("err=%v plaintext=%x", e2, b2), Expected: hx(pt0), Case: line, Theorem: "C12_open_seal"})
+			}
+			copy(ct, ct0)
+		}
+		again("after a successful decryption")
+		// a refused attempt on the very same buffers (wrong additional data, then wrong nonce) changes nothing either
+		if _, e3 := e.Decrypt(iv, ct, append(append([]byte{}, aad...), 1)); e3 == nil {
+			c.fail(failure{Op: "aead", What: "decryption succeeds after a change: aad extended", Input: line, Observed: "plaintext", Expected: "error", Case: line, Theorem: "C12_ccm_open_exact"})
+		}
+		again("after a refused decryption")
 		if heavy {
 			return
 		}
